@@ -63,7 +63,7 @@ CHECKS = {
    text="ParseClasses.tla enumerates the classes of valid parses the block encoder distinguishes (sequence-count forms and boundaries, code-set shapes for the FSE builder, literals decisions, and code histograms that drive the table builder into every accuracy-log regime incl. its clamps); each class is materialised as a concrete valid parse (data synthesised from the plan) and driven through the public Matcher trait; ALL valid parses of all binary blocks of 3..7 bytes after histories of 0/3/5 bytes, a sample confirmed valid by TLC with Matcher!SeqsOk; seeded random valid parses of full blocks; outcome: no panic, decode by ruzstd and libzstd = input. Chains of three dependent blocks through a user matcher (new / treeless / discarded Huffman tables in every order); the scripted matcher configures its window in reset and every executed offset is checked against the declared window.",
    note="quick tier runs every 4th tiny parse; large parses sampled", technique=TECH),
  "C17": dict(level=MC, design="5/C17",
-   text="Matcher.tla: the window bookkeeping of the built-in driver explored exhaustively (window bounded, base offsets are true distances; off-by-one variant must be found), and the contract SeqsOk; the real MatchGeneratorDriver (hook: arbitrary slice size / slices per window) is driven over all binary strings for a set of block-length tuples (ternary for shorter ones), 1..3 slices, match/skip per block, reset-and-reuse; block lengths incl. tuples where one block pushes out two entries at once; every run reporting a match is a row judged by MatcherRows.Ok (true match, distance within the advertised window and the committed data, tiling; deviation from the as-built eviction Matcher!Evict is drift only); full-size seeded runs with mixed block lengths and recycled buffers checked with the same rule.",
+   text="Matcher.tla: the window bookkeeping of the built-in driver explored exhaustively (window bounded, base offsets are true distances; off-by-one variant must be found), and the contract SeqsOk; the real MatchGeneratorDriver (hook: arbitrary slice size / slices per window) is driven over all binary strings for a set of block-length tuples (ternary for shorter ones), 1..3 slices, match/skip per block, reset-and-reuse; block lengths incl. tuples where one block pushes out two entries at once; every run reporting a match is a row judged by MatcherRows.Ok (true match, distance within the advertised window and the committed data, tiling; deviation from the as-built eviction Matcher!Evict is drift only); full-size seeded runs with mixed block lengths and recycled buffers checked with the same rule. Full-size class 'doubled': 128 KiB blocks whose second half repeats the first (matches of 65 536 bytes, the longest a block can hold).",
    note="slices of 5..8 bytes exhaustively; full-size behaviour sampled", technique=TECH),
  "C18": dict(level=MC, design="5/C18",
    text="IoLayer.tla specifies read_exact, take+read and write_all over scripted readers/writers; TLC enumerates all scripts up to 3 (4) answers x buffer sizes x limits; a second harness crate is built four times (std/no_std x hash/no hash) against the current tree; every IoLayer case is replayed against ruzstd::io of each build; a common program set (decode every model frame three ways, compress one input per content class at both levels with a fresh compressor and with ONE compressor reused over all inputs, each frame decoded back) runs in all four and is compared in lock step under the Features refinement mapping (no-hash frame = hash frame minus checksum flag and trailer). IoLayer.tla also specifies the byte-slice reader and writer (every buffer size incl. one byte at the end).",
